@@ -20,11 +20,14 @@ failed=$(echo "$out" | grep -E "^test result" | awk '{s+=$6} END {print s+0}')
 nres=$(echo "$out" | grep -cE "^test result")
 suite=false; [ "$failed" = "0" ] && [ "$nres" -ge 20 ] && suite=true
 demo_with=false; demo_without=false
+DEMO_PKG=${DEMO_PKG:-conformance-tests}
+DEMO_DIR=${DEMO_DIR:-conformance-tests/tests}
+DEMO_FEATURES=${DEMO_FEATURES:-}
 if [ -f "$SEED/demo.rs" ]; then
-  cp "$SEED/demo.rs" conformance-tests/tests/seed_demo_x.rs
-  if ! timeout 600 cargo test -p conformance-tests --test seed_demo_x --offline >/tmp/demo_with_$$.log 2>&1; then demo_with=true; fi
+  cp "$SEED/demo.rs" $DEMO_DIR/seed_demo_x.rs
+  if ! timeout 900 cargo test -p $DEMO_PKG --test seed_demo_x --offline $DEMO_FEATURES >/tmp/demo_with_$$.log 2>&1; then demo_with=true; fi
   git apply -R "$SEED/patch.diff"
-  if timeout 600 cargo test -p conformance-tests --test seed_demo_x --offline >/tmp/demo_without_$$.log 2>&1; then demo_without=true; fi
+  if timeout 900 cargo test -p $DEMO_PKG --test seed_demo_x --offline $DEMO_FEATURES >/tmp/demo_without_$$.log 2>&1; then demo_without=true; fi
   rm -f /tmp/demo_with_$$.log /tmp/demo_without_$$.log
 elif [ -f "$SEED/demo.sh" ]; then
   if ! timeout 600 bash "$SEED/demo.sh" "$WT" >/dev/null 2>&1; then demo_with=true; fi
